@@ -103,4 +103,168 @@ theorem unescape_ltEscape (s : List Char) :
     rw [unescape_step, ih]
     simp [substitute]
 
+/-! ### the replacer and lines -/
+
+/-- text without '&' passes through the replacer untouched -/
+theorem replace_no_amp (a rest : List Char) (h : ∀ x ∈ a, x ≠ '&') :
+    replaceFrom specPairsL 0 (a ++ rest) = a ++ replaceFrom specPairsL 0 rest := by
+  induction a with
+  | nil => rfl
+  | cons x xs ih =>
+    have hx : x ≠ '&' := h x (by simp)
+    have := ih (fun y hy => h y (by simp [hy]))
+    simp only [List.cons_append, replaceFrom, firstMatch_not_amp x _ hx, this]
+
+/-- a match covers five characters, none of them a line feed -/
+theorem firstMatch_some (s new : List Char) (n : Nat) (h : firstMatch specPairsL s = some (new, n)) :
+    n = 5 ∧ ∃ a b c d e r, s = a :: b :: c :: d :: e :: r ∧ a ≠ '\n' ∧ b ≠ '\n' ∧ c ≠ '\n' ∧ d ≠ '\n' ∧ e ≠ '\n' := by
+  rcases s with _ | ⟨a, _ | ⟨b, _ | ⟨c, _ | ⟨d, _ | ⟨e, r⟩⟩⟩⟩⟩
+  all_goals try (simp [firstMatch, stripPrefix?, specPairsL] at h; done)
+  simp [firstMatch, stripPrefix?, specPairsL] at h
+  (repeat' split at h) <;> simp_all
+  all_goals (
+    rename_i hq
+    obtain ⟨rfl, rfl, rfl, rfl, rfl, _⟩ := hq
+    exact ⟨_, _, _, _, _, ⟨rfl, rfl, rfl, rfl, rfl⟩, by decide, by decide, by decide, by decide, by decide⟩)
+
+
+theorem stripPrefix_isSome_nl (p : List Char) (hp : ∀ x ∈ p, x ≠ '\n') (l r1 r2 : List Char) :
+    (stripPrefix? p (l ++ '\n' :: r1)).isSome = (stripPrefix? p (l ++ '\n' :: r2)).isSome := by
+  induction p generalizing l with
+  | nil => simp [stripPrefix?]
+  | cons q ps ih =>
+    have hq : q ≠ '\n' := hp q (by simp)
+    cases l with
+    | nil => simp [stripPrefix?, hq]
+    | cons c l' =>
+      simp only [List.cons_append, stripPrefix?]
+      split
+      · exact ih (fun x hx => hp x (by simp [hx])) l'
+      · rfl
+
+theorem firstMatch_nl (ps : List (List Char × List Char)) (hps : ∀ p ∈ ps, ∀ x ∈ p.1, x ≠ '\n')
+    (l r1 r2 : List Char) :
+    firstMatch ps (l ++ '\n' :: r1) = firstMatch ps (l ++ '\n' :: r2) := by
+  induction ps with
+  | nil => rfl
+  | cons p ps ih =>
+    obtain ⟨old, new⟩ := p
+    have ih' := ih (fun q hq => hps q (by simp [hq]))
+    have hs := stripPrefix_isSome_nl old (hps (old, new) (by simp)) l r1 r2
+    unfold firstMatch
+    split
+    · exact ih'
+    · cases h1 : stripPrefix? old (l ++ '\n' :: r1) <;> cases h2 : stripPrefix? old (l ++ '\n' :: r2) <;>
+        simp [h1, h2] at hs ⊢
+      exact ih'
+
+theorem specPairs_no_nl : ∀ p ∈ specPairsL, ∀ x ∈ p.1, x ≠ '\n' := by decide
+
+/-- the replacer's state at a line end does not depend on what follows: a line can be replaced on
+    its own -/
+theorem replace_line (l rest : List Char) (hl : ∀ x ∈ l, x ≠ '\n') (k : Nat) (hk : k ≤ l.length) :
+    replaceFrom specPairsL k (l ++ '\n' :: rest) =
+      replaceFrom specPairsL k (l ++ ['\n']) ++ replaceFrom specPairsL 0 rest := by
+  induction l generalizing k with
+  | nil =>
+    have : k = 0 := by simpa using hk
+    subst this
+    have h0 : firstMatch specPairsL ('\n' :: rest) = none := firstMatch_not_amp _ _ (by decide)
+    have h1 : firstMatch specPairsL ['\n'] = none := firstMatch_not_amp _ _ (by decide)
+    simp [replaceFrom, h0, h1]
+  | cons c l' ih =>
+    have hl' : ∀ x ∈ l', x ≠ '\n' := fun x hx => hl x (by simp [hx])
+    cases k with
+    | succ k' =>
+      simp only [List.cons_append, replaceFrom]
+      exact ih hl' k' (by simpa using hk)
+    | zero =>
+      simp only [List.cons_append, replaceFrom]
+      have hB := firstMatch_nl specPairsL specPairs_no_nl (c :: l') rest []
+      simp only [List.cons_append] at hB
+      rw [← hB]
+      cases hm : firstMatch specPairsL (c :: (l' ++ '\n' :: rest)) with
+      | none => simp only [List.cons_append]; rw [ih hl' 0 (by omega)]
+      | some nn =>
+        obtain ⟨new, n⟩ := nn
+        obtain ⟨hn, a, b, c', d, e, r, hs, ha, hb, hc, hd, he⟩ := firstMatch_some _ _ _ hm
+        subst hn
+        have hlen : 4 ≤ l'.length := by
+          rcases l' with _ | ⟨x1, _ | ⟨x2, _ | ⟨x3, _ | ⟨x4, l''⟩⟩⟩⟩
+          · simp at hs; exact absurd hs.2.1.symm hb
+          · simp at hs; exact absurd hs.2.2.1.symm hc
+          · simp at hs; exact absurd hs.2.2.2.1.symm hd
+          · simp at hs; exact absurd hs.2.2.2.2.1.symm he
+          · simp
+        simp only [List.append_assoc]
+        rw [ih hl' 4 hlen]
+
+
+theorem splitLines_line (l rest : List Char) (hl : ∀ x ∈ l, x ≠ '\n') :
+    splitLines (l ++ '\n' :: rest) = (l ++ ['\n']) :: splitLines rest := by
+  induction l with
+  | nil => simp [splitLines]
+  | cons c l' ih =>
+    have hc : c ≠ '\n' := hl c (by simp)
+    have := ih (fun x hx => hl x (by simp [hx]))
+    simp [splitLines, hc, this]
+
+theorem splitLines_last (l : List Char) (hl : ∀ x ∈ l, x ≠ '\n') (hne : l ≠ []) : splitLines l = [l] := by
+  induction l with
+  | nil => exact absurd rfl hne
+  | cons c l' ih =>
+    have hc : c ≠ '\n' := hl c (by simp)
+    cases l' with
+    | nil => simp [splitLines, hc]
+    | cons d l'' =>
+      have := ih (fun x hx => hl x (by simp [hx])) (by simp)
+      simp [splitLines, hc] at this ⊢
+      simp [this]
+
+def untilNl : List Char → List Char × List Char
+  | [] => ([], [])
+  | c :: cs => if c = '\n' then ([], c :: cs) else ((c :: (untilNl cs).1), (untilNl cs).2)
+
+theorem untilNl_spec (doc : List Char) :
+    doc = (untilNl doc).1 ++ (untilNl doc).2 ∧ (∀ x ∈ (untilNl doc).1, x ≠ '\n') ∧
+      ((untilNl doc).2 = [] ∨ ∃ rest, (untilNl doc).2 = '\n' :: rest) := by
+  induction doc with
+  | nil => simp [untilNl]
+  | cons c cs ih =>
+    unfold untilNl
+    by_cases hc : c = '\n'
+    · subst hc; simp
+    · obtain ⟨h1, h2, h3⟩ := ih
+      simp only [hc, if_false, List.cons_append]
+      refine ⟨by rw [← h1], ?_, h3⟩
+      intro x hx
+      rcases List.mem_cons.mp hx with h | h
+      · subst h; exact hc
+      · exact h2 x h
+
+/-- the encoder's filter works line by line; because no old string of the replacer contains a
+    line feed this is the same as running the replacer over the whole document -/
+theorem filterDoc_eq_replaceAll (doc : List Char) :
+    filterDoc specPairsL doc = replaceAll specPairsL doc := by
+  unfold filterDoc replaceAll
+  generalize hn : doc.length = n
+  induction n using Nat.strongRecOn generalizing doc with
+  | _ n ih =>
+    obtain ⟨hsplit, hl, hr⟩ := untilNl_spec doc
+    generalize (untilNl doc).1 = l at hsplit hl
+    generalize (untilNl doc).2 = r at hsplit hr
+    rcases hr with hr | ⟨rest, hr⟩
+    · rw [hr, List.append_nil] at hsplit
+      rw [hsplit]
+      by_cases hne : l = []
+      · rw [hne]; simp [splitLines, replaceFrom]
+      · rw [splitLines_last l hl hne]; simp
+    · rw [hr] at hsplit
+      have hlen : rest.length < n := by
+        have : doc.length = l.length + (rest.length + 1) := by rw [hsplit]; simp
+        omega
+      rw [hsplit, splitLines_line l rest hl, List.flatMap_cons, replace_line l rest hl 0 (by omega)]
+      congr 1
+      exact ih rest.length hlen rest rfl
+
 end TrackVerif.LT.Text
